@@ -115,6 +115,7 @@ Proof.
   pose proof HQS as [Hw Hd Hmode Hn Hconn Hgos HQ Hlast Hfr Hkinds Hpe Hsok].
   destruct Hw as (Hw1 & Hw2 & Hw3). destruct Hmode as (Hrun & Hsp & Hdf).
   destruct Hn as (Hn1 & Hn2 & Hn3 & Hn4). destruct Hfr as (HfL & Hfc & Hfw).
+  pose proof (js_w _ _ _ HJS) as Hw1p. rewrite (Z.max_r 1 w) in Hfw by lia.
   pose proof (QsI_length _ _ _ _ HQ) as Hlq.
   assert (HScf : s_last_saved (ps_sync p) <= Z.max 0 cf).
   { destruct (confirmed_frame_spec p Hconn) as (cf' & Ecf' & _ & Hex); [|exact Hbnd|].
@@ -180,6 +181,7 @@ Proof.
   pose proof (SX_of_SXs _ _ _ _ _ HQS HXs) as HSX.
   pose proof HQS as [Hw Hd Hmode Hn Hconn Hgos HQ Hlast Hfr Hkinds Hpe Hsok].
   destruct Hw as (Hw1 & Hw2 & Hw3). destruct Hmode as (Hrun & Hsp & Hdf). destruct Hfr as (HfL & Hfc & Hfw).
+  pose proof (js_w _ _ _ HJS) as Hw1p. rewrite (Z.max_r 1 w) in Hfw by lia.
   unfold advance in E. rewrite Hrun in E. cbn [negb] in E.
   destruct (forallb _ (local_handles p)) eqn:Efa; cbn [negb] in E.
   2:{ injection E as <- <- <-. exists gs. split; [exact HQS|]. split; [exact HTI|]. split; [apply hist_step_refl|]. split; [reflexivity|]. split; [apply spec_step_none; [exact Hsok|reflexivity..]|constructor]. }
